@@ -31,9 +31,20 @@ def lockHelper (h : Nat) : Prog := Src.locks_check_and_reload_helper h
 /-- the polling thread (its own helper thread would be 3) -/
 def lockPoller : Prog := .call (Src.locks_run_loop 3)
 
+/-! one `decide` per method, so that a failure names the method whose lock discipline is no longer accepted -/
+theorem init_locks_safe : safe Src.locks_reentrant (.call (Src.locks_init 1)) = true := by decide
+theorem check_and_reload_locks_safe : safe Src.locks_reentrant (.call (Src.locks_check_and_reload 1)) = true := by decide
+theorem start_locks_safe : safe Src.locks_reentrant (.call (Src.locks_start 1)) = true := by decide
+theorem stop_locks_safe : safe Src.locks_reentrant (.call (Src.locks_stop 1)) = true := by decide
+theorem helper_locks_safe : safe Src.locks_reentrant (lockHelper 1) = true ∧ safe Src.locks_reentrant (lockHelper 3) = true := by decide
+theorem run_loop_locks_safe : safe Src.locks_reentrant lockPoller = true := by decide
+
 theorem reloader_locks_static_safe :
     lockApi.all (safe Src.locks_reentrant) = true ∧ safe Src.locks_reentrant (lockHelper 1) = true ∧
-    safe Src.locks_reentrant lockPoller = true ∧ safe Src.locks_reentrant (lockHelper 3) = true := by decide
+    safe Src.locks_reentrant lockPoller = true ∧ safe Src.locks_reentrant (lockHelper 3) = true := by
+  refine ⟨?_, helper_locks_safe.1, run_loop_locks_safe, helper_locks_safe.2⟩
+  simp only [lockApi, List.all_cons, List.all_nil, Bool.and_true, Bool.and_eq_true]
+  exact ⟨init_locks_safe, check_and_reload_locks_safe, start_locks_safe, stop_locks_safe⟩
 
 theorem reloader_waits_ranked :
     lockApi.all (allOps (rankOk 0)) = true ∧ allOps (rankOk 1) (lockHelper 1) = true ∧
